@@ -36,7 +36,7 @@ func zzBlockOf(h uint64, txs []pb.Transaction) *BlockWrapper {
 // bookkeeping, FlushDirtyData, block hash, PersistBlockData). The stored chain is hash-linked,
 // the header commits to the recomputed roots, every transaction has exactly one receipt in
 // block order and the height advances by one (C08).
-// zz:also C08 C01
+// zz:also C08 C01 C10
 func ZZH_C09_link() {
 	exec := zzNewExec(1, big.NewInt(0))
 	exec.ibtpVerify = &zzStubVerify{verdict: make([]uint8, 4), seen: make([]int, 4)}
@@ -65,16 +65,14 @@ func ZZH_C09_link() {
 		zz.Assert("C09.link.stored", err == nil)
 		zz.Assert("C09.link.parent", stored.BlockHeader.ParentHash.String() == prevHash.String())
 		zz.Assert("C09.link.hash-of-header", stored.BlockHash.String() == stored.Hash().String())
-		txRoot, _ := exec.buildTxMerkleTree(stored.Transactions.Transactions)
-		zz.Assert("C09.link.tx-root", stored.BlockHeader.TxRoot.String() == txRoot.String())
+		zzCheckStoredRoots(exec, h)
 		var rs []*pb.Receipt
 		for _, tx := range txs {
 			r, e := exec.ledger.GetReceipt(tx.GetHash())
 			zz.Assert("C08.one-receipt-per-tx", e == nil && r.TxHash.String() == tx.GetHash().String())
 			rs = append(rs, r)
 		}
-		rRoot, _ := exec.calcReceiptMerkleRoot(rs)
-		zz.Assert("C09.link.receipt-root", stored.BlockHeader.ReceiptRoot.String() == rRoot.String())
+		_ = rs
 		zz.Assert("C09.link.meta", exec.ledger.GetChainMeta().Height == h && exec.ledger.GetChainMeta().BlockHash.String() == stored.BlockHash.String())
 		zz.Assert("C01.clock-not-in-header", stored.BlockHeader.Timestamp == int64(100+h))
 		prevHash = stored.BlockHash
